@@ -2,8 +2,10 @@
    do not edit.  An unrecognised shape yields *Unknown / false / 0, which breaks C04_facts_pinned and
    C14_facts_pinned. *)
 From Coq Require Import NArith.
-From Sim Require Import Integrator Views.
+From Sim Require Import Integrator Views ProtocolTable.
 Definition gen_sim_facts : sim_facts :=
   mkSimFacts FrameAbs CmpLe FrameAbs CmpLe CmpGe true true false true false 100%N 1000%N CmpLe CmpGt CmpLe true true true.
 (* src/mxlpy/simulation.py: what reading a view of get_result() leaves in the model shared with the Simulator *)
 Definition gen_view_mode : view_mode := ViewRestores.
+(* src/mxlpy/__init__.py make_protocol: how a step's values get into its row of the table *)
+Definition gen_protocol_rows : rows_mode := RowsByName.
